@@ -251,3 +251,44 @@ register('C13', 'proof',
                       '(nick identifiers and stereotypes name known instances)',
                       'structural validity of the per-instance maps (valid_structure / distinct_entries, contracts/c07.py)',
                       'XML-RPC answers of the remote are what its RPCInterface returns'])
+register('C02', 'proof',
+         'Per-transition proof on the real source. (1) Single writer: syntactic scan of every assignment to an attribute '
+         '`state` of the package + verified frames (next()/exit()/on_instance_state_event never write the local state). '
+         '(2) The precondition of the only writer (SupvisorsStateModes.state setter) IS the statement - new in '
+         '_Transitions[old], and a Master-driven state only with a known Master seen RUNNING that is either the local '
+         'instance or already published that state - and is discharged at its single call site in '
+         'FiniteStateMachine.set_state under a loop invariant (instance class = current state), for every proposal that '
+         'next()/on_restart/on_shutdown can make; _Transitions (read from the AST) is inside the documented graph, FINAL '
+         'terminal; the setter publishes iff the state changes. (3) Every value returned by next() of each of the nine '
+         'state classes (whole super() chain executed symbolically, Context / Starter / Stopper call-outs by contract) '
+         'satisfies the Master clause, except the known finding (SHUTDOWN failure strategy).',
+         not_decided=['re-entrant FSM transitions out of Starter/Stopper/failure-handler call-outs (forced process event with '
+                      'running failure strategy RESTART/SHUTDOWN on the Master) are not modelled inside next(); they go '
+                      'through set_state and its table check like every other write',
+                      'exception-freedom of SynchronizationState._check_end_sync_user (Master accepted from a peer but '
+                      'unknown to the local Context: AttributeError) is left to C16',
+                      'FiniteStateMachine.__init__ establishing the FSM invariant (OffState / OFF) is read, not proved'],
+         assumptions=['J (rely condition of C01): a known Master is an instance the local instance sees RUNNING on entry of '
+                      'every handler (kept by update_instance_state, verified; select_master/accept_master are C01\'s)',
+                      'the Master state known to a slave is the last one it published (FIFO per sender)',
+                      'assumed contracts of Context.invalidate_failed / activate_checked / on_timer_event (instance states '
+                      'only move through the SupvisorsInstanceStatus.state setter), of the Starter / Stopper / failure '
+                      'handler / conciliation call-outs (they do not touch the state & modes view) and of the transport',
+                      'shape validity of the Supvisors structure (wiring, same keys in the per-instance maps)',
+                      'handlers are atomic (single Supervisor thread)'],
+         extra='pyvc.structural_c02')
+register('C08', 'other',
+         'Liveness of the composed system is out of reach of per-call contracts; necessary conditions are proved per call: '
+         '(1) no self-decision of a state class is refused by the transition table (values returned by next() outside the '
+         'follow-the-Master path are in _Transitions[X] + {X, None}) - refuted twice, both known findings; (2) on_timer_event '
+         'always reaches next(), on_state_event calls next() iff the sender is the Master, every evaluation goes through '
+         'set_state; (3) SynchronizationState/ElectionState.enter leave no start, stop or failure job; (4) functional '
+         'contract of _check_failure_strategy (CONTINUE never leaves; RESYNC/SHUTDOWN exactly when a selected condition is '
+         'lost, precedence USER > CORE > STRICT > LIST; TIMEOUT alone never fails).',
+         not_decided=['bounded-time return of every live instance to OPERATION/CONCILIATION (liveness over all schedules)',
+                      'termination of the set_state loop inside one call (needs a global argument on Context stability '
+                      'between evaluations); only proved: every iteration performs a transition of the table or stops',
+                      'clause 5 (slave in ELECTION that missed its Master\'s DISTRIBUTION): needs a multi-instance history; '
+                      'the per-call obligation is not claimed'],
+         assumptions=['same assumed call-out contracts as C02',
+                      'Context.on_timer_event does not raise (C07/C16)'])
